@@ -34,7 +34,7 @@ LEVEL_TEXT = (
 LEVEL_NOTE = "The reference walk supports exactly the pattern shapes that are generated (basename globs and 'dir/' rules); DEFAULT_EXCLUDES is read from flowmark as configuration data."
 ASSUMPTIONS = [
     "exclude / extend_exclude values are directory patterns ('name/'): the statement speaks of excluded directories",
-    "directories named on the command line are not themselves excluded names (what that should mean is not stated)",
+    "a directory named on the command line does not itself have an excluded name; exclusions apply below the directory that is walked",
     "trees used with glob arguments contain no symbolic links (whether glob expansion may follow links is not stated)",
 ]
 BUDGET = {"quick": 70, "thorough": 1200}
@@ -273,7 +273,9 @@ def _case(draw, disabled: frozenset):
     from flowmark.file_resolver.defaults import DEFAULT_EXCLUDES
 
     excl = (list(DEFAULT_EXCLUDES) if cfg["exclude"] is None else cfg["exclude"]) + cfg["extend_exclude"]
-    ok_dirs = [d for d in dirs if not any(fstree.dir_match_any(part, [x for x in excl if x.endswith("/")]) for part in d.split("/"))]
+    # a directory may be named explicitly if its own name is not an excluded one (it may lie below an excluded directory:
+    # exclusions apply below the directory that is walked)
+    ok_dirs = [d for d in dirs if not fstree.dir_match_any(d.split("/")[-1], [x for x in excl if x.endswith("/")])]
     pool = ["."] + ok_dirs + files + links
     if use_glob:
         pool += ["*.md", "**/*.md", "d*/a.md", "*/*.md", "**/x?.md", "docs/**/*.md"]
